@@ -21,16 +21,25 @@ SigmaStruct == Structural \cup { <<49>>, <<32>>, <<97>>, <<110>>, <<117>>, <<108
 SigmaTiny == Structural \cup { <<49>>, <<32>>, <<97>> }
 \* whole tokens as symbols: longer texts (trailing commas, missing colons, nested members) within a short word
 SigmaToken == { <<123>>, <<125>>, <<91>>, <<93>>, <<58>>, <<44>>, <<34, 97, 34>>, <<49>>, <<32>>, <<110, 117, 108, 108>>, <<45, 48, 46, 53>> }
-Sigma == CASE SigmaId = "full" -> SigmaFull [] SigmaId = "struct" -> SigmaStruct [] SigmaId = "token" -> SigmaToken [] OTHER -> SigmaTiny
+\* strings with bytes that are not UTF-8 (the grammar admits any byte >= 0x20 in a string; a decoder reads each bad byte
+\* as U+FFFD, which is LONGER than the byte it replaces): a string of six bad bytes, one that ends in a truncated
+\* sequence, and one with bad bytes before an escape
+Bad6 == <<34, 255, 255, 255, 255, 255, 255, 34>>
+BadT == <<34, 97, 226, 130, 34>>
+BadE == <<34, 192, 128, 254, 92, 110, 255, 255, 255, 34>>
+SigmaBadUtf == { <<123>>, <<125>>, <<91>>, <<93>>, <<58>>, <<44>>, Bad6, BadT, BadE, <<49>> }
+Sigma == CASE SigmaId = "full" -> SigmaFull [] SigmaId = "badutf" -> SigmaBadUtf [] SigmaId = "struct" -> SigmaStruct [] SigmaId = "token" -> SigmaToken [] OTHER -> SigmaTiny
 
-VARIABLES w, sc
-svars == <<w, sc>>
+VARIABLES w, sc,
+          k          \* number of symbols taken (MaxLen bounds symbols, not bytes)
+svars == <<w, sc, k>>
 
-SInit == w = <<>> /\ sc = S0
+SInit == w = <<>> /\ sc = S0 /\ k = 0
 SNext ==
   /\ sc.step # "Error"
+  /\ k < MaxLen
   /\ \E sym \in Sigma :
-       /\ Len(w) + Len(sym) <= MaxLen
+       /\ k' = k + 1
        /\ w' = w \o sym
        /\ sc' = RunFrom(sc, sym)
 SSpec == SInit /\ [][SNext]_svars
